@@ -311,6 +311,9 @@ def init_request(spi, src_note='', vendor=b'verif', extra=()):
     return W.enc_message({'spi_i': spi, 'spi_r': b'\0' * 8, 'xchg': 34, 'response': False, 'initiator': True, 'mid': 0}, pl)
 
 
+_MUTANTS = None
+
+
 def hostile_event(kind, loop, rnd, prepared=False):
     """One concrete instance of an abstract hostile kind, built for the current state of the world."""
     w = loop.w
@@ -388,6 +391,18 @@ def hostile_event(kind, loop, rnd, prepared=False):
         if kind == 'wrong_spi_clear':
             return udp(W.enc_header(b'\x5a' * 8, sa_b.spi_r, 0, 2, 0, rnd.choice((35, 36, 37)), 0x08, mid, 28))
         return udp(probes.seal(sa_b, 37, False, mid, [], spi_i=b'\x5a' * 8))
+    if kind == 'wire_mutant':
+        # a member of the mutation families of Wire.tla (length fields, next-payload octets, raw transform attributes - the C06 generators) as an IKE_SA_INIT request
+        global _MUTANTS
+        if _MUTANTS is None:
+            import wirevec
+            _MUTANTS = sorted(wirevec.vectors('mutations')['muts'], key=lambda m: (m['kind'], m['at'], m['b']))
+        batch = []
+        for fam in ('attr', 'len', 'next'):
+            for m in rnd.sample([x for x in _MUTANTS if x['kind'] == fam], 10):      # a burst: ten of each family, one datagram each
+                chain = bytes(m['b'])
+                batch.append(udp(W.enc_header(bytes([0x75, rnd.getrandbits(8)]) * 4, b'\0' * 8, m['first'], 2, 0, 34, 0x08, 0, 28 + len(chain)) + chain))
+        return batch
     if kind == 'acquire_legit_peer':
         # the kernel asks for an SA towards the legitimate peer at whatever moment: half-open responder IKE_SA, exchange in progress, rekeyed IKE_SA ...
         return {'type': 'xfrm', 'name': kind, 'data': fakekernel.enc_acquire(wd.addr_of('A'), wd.addr_of('B'), wd.addr_of('A'), wd.addr_of('B'), 0, 0, 6, (1 << 3) | 1)}
@@ -434,7 +449,7 @@ def hostile_event(kind, loop, rnd, prepared=False):
 KINDS = ('short', 'garbage', 'unconfigured_src', 'init_existing_spi', 'unknown_exchange', 'unknown_spi', 'binary_vendor', 'auth_malformed', 'bad_checksum',
          'loop_payload', 'delete_many', 'acquire_unconfigured', 'acquire_unknown_index', 'expire_unknown_spi', 'netlink_truncated', 'netlink_unknown_type',
          'control', 'send_gaierror', 'send_oserror', 'tick', 'wrong_spi_sealed', 'wrong_spi_clear', 'acquire_silent_peer', 'half_open_wrong_spi', 'netlink_fail_delsa', 'netlink_fail_newsa',
-         'acquire_legit_peer', 'half_open_unknown_exchange_x2', 'unknown_exchange_sealed_x2', 'unknown_exchange_x2', 'garbage_x2', 'wrong_spi_sealed_x2', 'auth_malformed_x2')
+         'acquire_legit_peer', 'wire_mutant', 'half_open_unknown_exchange_x2', 'unknown_exchange_sealed_x2', 'unknown_exchange_x2', 'garbage_x2', 'wrong_spi_sealed_x2', 'auth_malformed_x2')
 
 
 class Lazy(dict):
